@@ -2,6 +2,7 @@
 //! Usage: acb_verif_harness <family> --seed N --count N
 //! Writes protocol lines (see lean/Driver/Proto.lean) to stdout.
 mod common;
+mod etrade;
 mod fmv;
 mod ledger;
 mod pages;
@@ -65,6 +66,27 @@ fn main() {
                 eprintln!("no replayable case on stdin");
                 std::process::exit(2);
             }
+        }
+        "etrade" => {
+            let root = etrade::scratch_root();
+            for (i, c) in etrade::recorded().iter().enumerate() {
+                let mut s = String::new();
+                etrade::run_case(&format!("ER{}", i), c, &root, &mut s);
+                w.write_all(s.as_bytes()).unwrap();
+            }
+            let mut r = rng::Rng::new(seed);
+            for i in 0..count {
+                let mut cr = r.fork();
+                let c = etrade::gen_case(&mut cr);
+                let mut s = String::new();
+                etrade::run_case(&format!("E{}-{}", seed, i), &c, &root, &mut s);
+                w.write_all(s.as_bytes()).unwrap();
+            }
+            let _ = std::fs::remove_dir_all(&root);
+        }
+        "etrade-blowup" => {
+            etrade::blowup(count as u32);
+            return;
         }
         "fmv" => {
             for (i, c) in fmv::corpus().iter().enumerate() {
